@@ -802,3 +802,12 @@ func (e *Engine) isRoot(f *ssa.Function) bool {
 	}
 	return ast.IsExported(f.Name())
 }
+
+func (e *Engine) selfRecursive(f *ssa.Function) bool {
+	for _, c := range e.callees(f) {
+		if c == f {
+			return true
+		}
+	}
+	return false
+}
